@@ -249,9 +249,9 @@ func main() {
 	}
 
 	// merge, in configuration order
-	type seenKey struct{ k string }
 	firstSeen := map[string]bool{}
 	completed := 0
+	var samples []interface{}
 	for i, rep := range reports {
 		c := cfgs[i]
 		if crashes[i] != "" {
@@ -288,14 +288,10 @@ func main() {
 			firstSeen[v.Fingerprint] = true
 			r.Violate(v.Fingerprint+"/"+c.Name, v.Detail, v.Replay)
 		}
-		if i < 3 || i == len(reports)-1 {
-			for j, s := range rep.Samples {
-				if j < 4 {
-					r.Sample(s)
-				}
+		for j, s := range rep.Samples {
+			if j < 3 && (len(cfgs) <= 16 || i%6 == 0 || j == 0) {
+				samples = append(samples, s)
 			}
-		} else if len(rep.Samples) > 0 {
-			r.Sample(rep.Samples[len(rep.Samples)/2])
 		}
 		for _, n := range rep.Notes {
 			r.Note("%s: %s", c.Name, n)
@@ -305,6 +301,14 @@ func main() {
 		}
 	}
 
+	// spread the bounded sample list over all configurations
+	step := 1
+	if len(samples) > 22 {
+		step = (len(samples) + 21) / 22
+	}
+	for i := 0; i < len(samples); i += step {
+		r.Sample(samples[i])
+	}
 	var names []string
 	for _, c := range cfgs {
 		names = append(names, c.Name)
